@@ -643,6 +643,37 @@ def runRd (ws : List String) : String :=
   let (st', v', _) := readBuiltin raw p
   showBytes out ++ "\t=" ++ showBytes ((toString st').toUTF8.toList ++ [58] ++ v' ++ [10])
 
+/-! ### `read` on a pipe whose data arrives in pieces that cut multi-byte characters (`rp` cases) -/
+
+def rpFiller (k salt : Nat) : List UInt8 := (List.range k).map fun i => UInt8.ofNat (alpha 97 (i + salt) 7)
+
+def rpChar (cs : Nat) : List UInt8 :=
+  match cs with
+  | 2 => utf8 [Char.ofNat 0xE9]
+  | 3 => utf8 [Char.ofNat 0x6771]
+  | _ => utf8 [Char.ofNat 0x1F600]
+
+def runRp (ws : List String) : String :=
+  let b := kvNat ws "b"
+  let d := kvNat ws "d"
+  let m := rpChar (kvNat ws "cs")
+  let raw := kvNat ws "raw" != 0
+  let l1 := rpFiller (b - d) 0 ++ m ++ m ++ m ++ rpFiller 5 3
+  let l2 := "two".toUTF8.toList ++ m
+  let rest := "rest".toUTF8.toList ++ m ++ [10] ++ "tail".toUTF8.toList
+  let data := l1 ++ [10] ++ l2 ++ [10] ++ rest
+  -- the writer's pieces are write requests of the transfer model: first piece, then `piece` bytes each
+  let first := kvNat ws "first"
+  let piece := kvNat ws "piece"
+  let head := (transfer 31 0 0 ((data.take first).map (·.toNat))).getD []
+  let tailPart := (transfer 37 piece 1 ((data.drop first).map (·.toNat))).getD []
+  let stream := (head ++ tailPart).map UInt8.ofNat
+  let render (input : List UInt8) : List UInt8 :=
+    let (s1, a, r1) := readBuiltin raw input
+    let (s2, bv, r2) := readBuiltin raw r1
+    (toString s1).toUTF8.toList ++ [58] ++ a ++ [10] ++ (toString s2).toUTF8.toList ++ [58] ++ bv ++ [10] ++ r2
+  showBytes (render stream) ++ "\t=" ++ showBytes (render data)
+
 def runLine (line : String) : String :=
   match words line with
   | "xfer" :: ws => runXfer ws
@@ -651,6 +682,7 @@ def runLine (line : String) : String :=
   | "hd" :: ws => runHd ws
   | "lim" :: ws => runLim ws
   | "rd" :: ws => runRd ws
+  | "rp" :: ws => runRp ws
   | _ => runOps line
 
 def main : IO Unit := mainLoop runLine
